@@ -21,6 +21,9 @@ func checkC07(c *Ctx, r *Report) {
 	stagedErrors(r, "C07", st)
 	c07Flows(c, r)
 	c10DirectiveWords(c, r, "C07.c")
+	// "the n-th right-hand-side symbol of that very reduction": positions in RighPart are positions in the file only
+	// if the right-hand sides and the rule list are kept in source order from the parser to the grammar (C10.c)
+	includeClauses(c, r, "C07.c", checkC10, "C10.c")
 	// the Dollar window and the returned *ValType point into the stack array: it must belong to one parse
 	c15FreshStackAll(r, "C07.b←C15.c", st)
 	type backend struct {
